@@ -580,6 +580,19 @@ func main() {
 		w.Flush()
 	case "replay":
 		os.Exit(replayCmd(os.Args[2]))
+	case "one":
+		// simrun one <property> <tier> <index>: run one index verbosely (debugging aid)
+		prop := properties[os.Args[2]]
+		idx, _ := strconv.Atoi(os.Args[4])
+		seed := RunSeed(baseSeed(), prop.ID(), idx)
+		c := prop.Gen(seed, os.Args[3])
+		v, ri := prop.Check(c)
+		b, _ := json.Marshal(freeze(c, ri))
+		fmt.Println(string(b))
+		if v != nil {
+			fmt.Printf("VIOLATION rule=%s\n%s\n--- expected\n%s\n--- observed\n%s\n", v.Rule, v.Detail, v.Expected, v.Observed)
+		}
+		fmt.Printf("counters=%v nontrivial=%v\n", ri.Counters, ri.Nontrivial)
 	case "gen":
 		// simrun gen <property> <tier> <seed>: print the case a seed generates
 		prop := properties[os.Args[2]]
